@@ -5,6 +5,14 @@ ROOT = os.path.dirname(os.path.dirname(os.path.abspath(__file__)))
 
 # id -> (level, technique, level text, level note, design ref)
 CLAIMED = {
+ "C09": ("exploration", "runtime monitoring: (source, sequence)-tagged rows checked by an O(n) scan for sortedness (independent comparator), multiset completeness and per-source order over PRNG merge plans",
+         "Held on every explored merge: 0..17 sorted inputs (file row groups with small pages, with/without page index, and buffers), disjoint/touching/nested/identical key ranges with duplicates, asc/desc, nullable keys with both null placements, 1-2 key columns, input sizes that engage range refinement and run mode, consumed via Rows() at 6 batch sizes, MergeRowReaders, CopyRows and WriteRowGroup+read back, with and without duplicate dropping: output sorted, exactly the union of the inputs, each input's rows in their original order, one row per key under dedup. Sampling: exploration.",
+         "Inputs are sorted by the independent comparator (spec orders; no NaN keys). Ties across inputs are unconstrained.",
+         "DESIGN.md §4 C09"),
+ "C10": ("exploration", "runtime monitoring: id-tagged rows checked for permutation, row integrity and order (independent comparator AND Schema.Comparator) over PRNG sort histories on three buffer kinds and the SortingWriter, assembly and purego builds",
+         "Held on every explored history: GenericBuffer, Buffer, RowBuffer (write/sort/read/write more/sort again/Reset/reuse) and SortingWriter (run sizes 1,2,7,100, optional dedup): output is a permutation of the input with every row intact across its 10 columns, ordered per the declared direction and null placement according to an independent comparator and to Schema.Comparator, file sorting metadata equals the configuration, dedup keeps one row per key. Sampling: exploration.",
+         "No NaN sort keys. Ties unconstrained.",
+         "DESIGN.md §4 C10"),
  "C08": ("exploration", "runtime monitoring: online sequential reference model (row array + position counter) checked after every operation of PRNG seek/read histories on 11 reader kinds",
          "Held on every explored history: after each SeekToRow/Read step on Reader, GenericReader, RowGroup.Rows, ColumnChunk.Pages, file-level Column.Pages, flat and nested MultiRowGroup rows and pages, buffers, row-range views and async rows, the rows returned equal rows[pos:pos+n] of a fresh sequential pass (values and levels), with no early/late EOF; files cover v1/v2, dictionary, nested/repeated columns, 1..n row groups, with/without page index, small read buffers; histories are biased to page boundaries, the last returned page, repeated seeks and the end. Sampling of an unbounded history space: exploration.",
          "Ground truth = one sequential pass of a fresh reader of the same object. Seeks beyond NumRows are not issued. The thorough tier additionally runs under the race detector.",
